@@ -311,7 +311,16 @@ def rule_r5(ctx, rid="C15.R5"):
         ctx.r.violation(rid, key_of(mwf, None, "default-trust"), "proxy_headers_middleware trusts %s by default" % norm(d), mwf.loc())
 
 
-RULES = [rule_r1, rule_r2, rule_r3, rule_r4, rule_r5]
+def rule_r6(ctx):
+    """Shared with C20.R6 / C20.R4: 'all settings of clear_untrusted_proxy_headers, trusted_proxy_headers' - the settings mean
+    what was configured: asbool strips and lower-cases before the truthy test."""
+    from . import c20
+    before = len(ctx.r.violations)
+    c20.rule_r6(ctx, rid="C15.R6")
+    ctx.r.violations[before:] = [v for v in ctx.r.violations[before:] if "asbool" in v["key"]]
+
+
+RULES = [rule_r1, rule_r2, rule_r3, rule_r4, rule_r5, rule_r6]
 
 from ..selftest import M, T, V  # noqa: E402
 
